@@ -562,6 +562,21 @@ def check_sim(prop, tier, seed, jobs):
             print(f"violation kind={kind} cause={cause} msg={msg}")
             print(f"VIOLATION property={prop} replay={path}")
             return 1
+    if prop in ("C01", "C03") and not unlisted:
+        import engines
+        nh, fail = engines.held_scenarios(prop, tier, seed, jobs)
+        coverage["held_member_sweeps"] = nh
+        coverage["held_member_note"] = "strongly connected fully recorded shapes of 66..260 (thorough 3000) objects in child processes; for every member (or 300 sampled) X: X is held from outside, the main handle is released (C01: nothing may be destroyed, X's count exact), then X is released (C03: everything destroyed once)"
+        if fail:
+            (shape, n, chords, samples), (kind, cause, msg) = fail
+            os.makedirs(REPLAYS, exist_ok=True)
+            path = os.path.join(REPLAYS, f"{prop}-held-{shape}-{n}.json")
+            with open(path, "w") as f:
+                json.dump({"property": prop, "engine": "held", "kind": kind, "cause": cause, "shape": shape, "n": n, "chords": chords, "samples": samples, "seed": seed, "expect": {"kind": kind, "cause": cause, "msg": msg}}, f, indent=1)
+            write_evidence(prop, tier, seed, LEVEL.get(prop, "exploration"), coverage, time.time() - t0, 1)
+            print(f"violation kind={kind} cause={cause} msg={msg}")
+            print(f"VIOLATION property={prop} replay={path}")
+            return 1
     if prop in ("C03", "C04", "C10") and not unlisted:
         import engines
         nn, fail = engines.nested_scenarios(prop, tier, seed, jobs)
